@@ -23,7 +23,7 @@ Theorem source_clauses :
   (basic_assert_key = basic_set_key /\ client_assert_key = basic_set_key /\ client_set_key = basic_set_key /\
    token_assert_key = basic_set_key /\ token_set_key = basic_set_key /\ capitalize basic_set_key = basic_set_key) /\
   (capitalize x_tag <> basic_set_key /\ capitalize reqid_set_key <> basic_set_key /\ capitalize ctype_set_key <> basic_set_key) /\
-  reqid_test_key = reqid_set_key /\ ctype_test_key = ctype_set_key /\
+  reqid_test_key = (if reqid_ci then map low reqid_set_key else reqid_set_key) /\ ctype_test_key = ctype_set_key /\
   (Forall (fun v => upper v = v) verbs /\ length verbs = 5%nat).
 Proof.
   exact (conj hdr_copy_true (conj clone_wraps_nonlist_true (conj resp_reversed_true (conj auth_keys_agree
